@@ -339,7 +339,7 @@ def _ns_unit(mode):
                 contracts=dict(NEUTRON_REC, **{FORMULAS + ".formula": c_formula_for_scattering,
                                                "AbstractFormula.atoms@get": c_atoms_of_abstract}),
                 inline={NSF + "._calculate_scattering", NSF + ".neutron_wavelength"},
-                loops={(target, 1): {"define": _mk_defs(["num_atoms", "molar_mass", "b_c", "sigma_s"]),
+                loops={(target, 1): {"iter": "compound.atoms.items()", "define": _mk_defs(["num_atoms", "molar_mass", "b_c", "sigma_s"]),
                                      "invariant": _ns_loop_inv,
                                      "havoc": {"is_energy_dependent": lambda E, st: st.fresh("is_ed", z3.BoolSort())}}},
                 options={"div_zero": "branch"},
@@ -566,7 +566,7 @@ def _sp_post(st, interp, C, res):
 _SP = NSF + "._sum_piece"
 U_SUM_PIECE = Unit("_sum_piece", _SP, _sp_inputs, _sp_post,
                    contracts=dict(NEUTRON_REC, **{"AbstractFormula.atoms@get": c_atoms_of_abstract}),
-                   loops={(_SP, 1): {"define": _mk_defs(["num_atoms", "molar_mass", "b_c", "sigma_s"])}},
+                   loops={(_SP, 1): {"iter": "compound.atoms.items()", "define": _mk_defs(["num_atoms", "molar_mass", "b_c", "sigma_s"])}},
                    replay={"module": "c17", "task": "replay"})
 
 
